@@ -418,6 +418,8 @@ def judge(res, pdef):
         if c in ('nomodel', 'fault'):
             nomodel = True        # injected damage / faults: only the oracles judge from here on
             continue
+        if 'dmg=' in cmd:
+            nomodel = True
         is_p = c in pdef['p_cmds']
         orc_applies = c in pdef.get('oracle_cmds', ())
         pyor = pdef.get('py_oracle')
